@@ -1429,8 +1429,13 @@ class Simulation:
 
         """
 
-        # Replace residual by provided vector
+        # Ensure misfit has been computed (and therefore the electric fields,
+        # the residual, and the weights).
+        _ = self.misfit
+
+        # Replace residual by provided vector, keeping the actual residual
         # (division by weight is undone in gradient).
+        residual = self.data.residual.data.copy()
         with np.errstate(invalid='ignore'):  # (For division by cplx-NaN.)
             self.data.residual[...] = vector/self.data.weights.data
 
@@ -1443,9 +1448,9 @@ class Simulation:
         # Get gradient from weighted residual `vector`.
         jtvec = self.gradient
 
-        # Reset misfit, gradient, and back-propagated fields: The stored
-        # residual was replaced by `vector`, they are not the ones of the data.
-        self._misfit = None
+        # Restore the residual of the data; reset gradient and back-propagated
+        # fields, as they are the ones of `vector`, not the ones of the data.
+        self.data.residual[...] = residual
         self._gradient = None
         for name in ['_dict_bfield', '_dict_bfield_info']:
             if hasattr(self, name):
